@@ -27,6 +27,9 @@ CONTROLS: List[Tuple[str, str, str, str, Callable[[Program], list], str]] = [
     ("R-MEMO", "_dask", "",
      "def _vp_ctl_memo(blocks, deps):\n    memo = {}\n    out = []\n    for idx in blocks:\n        y, x = idx[1:3]\n        v = memo.get((y, x))\n        if v is None:\n            v = tuple((idx[0], a, b) for a, b in deps.get((y, x), []))\n            memo[(y, x)] = v\n        out.append(v)\n    return out\n",
      lambda p: generic.rule_localmemo(p, {"_dask"}), "_vp_ctl_memo#memo"),
+    ("R-REMAINDER", "geobox", "",
+     "def _vp_ctl_rem(t):\n    import math\n    return math.fmod(t, 1.0)\n",
+     lambda p: generic.rule_remainder_owner(p, {"geobox"}), "_vp_ctl_rem#asym"),
     ("R-ABSEPS", "geobox", "GeoBox",
      "def _vp_ctl_abseps(self):\n    return self._affine.is_rectilinear\n",
      lambda p: generic.rule_abseps(p, {"geobox"}), "_vp_ctl_abseps#abs-eps"),
